@@ -3283,10 +3283,6 @@ RCP<const Basic> Beta::create(const RCP<const Basic> &a,
 RCP<const Basic> beta(const RCP<const Basic> &x, const RCP<const Basic> &y)
 {
     // Only special values are being evaluated
-    if (eq(*add(x, y), *one)) {
-        return ComplexInf;
-    }
-
     if (is_a<Integer>(*x)) {
         RCP<const Integer> x_int = rcp_static_cast<const Integer>(x);
         if (x_int->is_positive()) {
